@@ -4,6 +4,7 @@ package c01
 import (
 	"encoding/json"
 	"fmt"
+	"strconv"
 	"strings"
 	"testing"
 	"unicode/utf8"
@@ -30,6 +31,8 @@ type Case struct {
 	ReqW    int    `json:"req_w"`
 	ReqH    int    `json:"req_h"`
 	Image   bool   `json:"image_path"`
+	// StrHints: hint values given in their string form ("7" for 7, "H" for the level), which the writer accepts alike
+	StrHints bool `json:"string_hints,omitempty"`
 }
 
 // modeOf replicates the standard-level mode rule the property describes:
@@ -131,6 +134,14 @@ func hintsOf(c Case) map[gozxing.EncodeHintType]interface{} {
 	}
 	if c.Margin > 0 {
 		h[gozxing.EncodeHintType_MARGIN] = c.Margin
+	}
+	if c.StrHints {
+		h[gozxing.EncodeHintType_ERROR_CORRECTION] = qrref.LevelNames[c.Level]
+		for _, k := range []gozxing.EncodeHintType{gozxing.EncodeHintType_QR_VERSION, gozxing.EncodeHintType_QR_MASK_PATTERN, gozxing.EncodeHintType_MARGIN} {
+			if v, ok := h[k].(int); ok {
+				h[k] = strconv.Itoa(v)
+			}
+		}
 	}
 	return h
 }
@@ -452,6 +463,9 @@ func gen(t *rapid.T) (Case, string) {
 			c.ReqH = c.ReqW
 		}
 	}
+	if c.Image && rapid.IntRange(0, 2).Draw(t, "strhints") == 0 {
+		c.StrHints = true
+	}
 	vc := "v1-9"
 	if v >= 27 {
 		vc = "v27-40"
@@ -466,6 +480,9 @@ func gen(t *rapid.T) (Case, string) {
 	}
 	if c.MHint >= 0 {
 		cl += ";forced_mask"
+	}
+	if c.StrHints {
+		cl += ";hints_as_strings"
 	}
 	if c.Image {
 		cl += ";path=image"
